@@ -86,7 +86,7 @@ def foldLine (args : List String) (ret : Bool) : String :=
     match Fold.parseOp op, parseKind k, n.toNat?, a.toInt?, b.toInt?, parseForm af, parseForm bf with
     | some op, some k, some n, some a, some b, some af, some bf =>
       let r := foldExpr op k n a b af bf
-      if ret then resStr hexNat (r >>= retSeen k n) else resStr cvStr r
+      if ret then resStr hexNat (r >>= retSeen (if op.isCmp then .bool else k) n) else resStr cvStr r
     | _, _, _, _, _, _, _ => "bad-op"
   | _ => "bad-op"
 
